@@ -386,18 +386,25 @@ func c10DoubleClose(x *X) {
 		return
 	}
 	closes := 0
-	vs.GoNamed("closer", func() {
-		st.Close()
-		closes++
-		if gap {
-			vs.Yield()
+	concurrent := x.Choose(2) == 1 // the two Close calls come from two goroutines
+	if concurrent {
+		for i := 0; i < 2; i++ {
+			vs.GoNamed(fmt.Sprintf("closer%d", i), func() { st.Close(); closes++ })
 		}
-		st.Close()
-		closes++
-	})
+	} else {
+		vs.GoNamed("closer", func() {
+			st.Close()
+			closes++
+			if gap {
+				vs.Yield()
+			}
+			st.Close()
+			closes++
+		})
+	}
 	vs.Quiesce()
 	if closes != 2 {
-		x.Fail("C10/close-blocked/double-close", "%d of 2 Stream.Close calls on one stream returned", closes)
+		x.Fail("C10/close-blocked/double-close", "%d of 2 Stream.Close calls on one stream returned (from two goroutines: %v)", closes, concurrent)
 	}
 	if f.w.streamsEx != 1 {
 		x.Fail("C10/handler-count/double-close", "one of two streams was closed (twice): %d of %d handlers have returned", f.w.streamsEx, f.w.streamsIn)
@@ -432,7 +439,7 @@ func c10DoubleClose(x *X) {
 	if !blocked {
 		x.Fail("C10/client-reader-blocked/double-close", "the connection was closed: the sibling stream's blocked ReadMessage did not return")
 	}
-	x.Outcome("mode=%d gap=%v closes=%d", mode, gap, closes)
+	x.Outcome("mode=%d gap=%v concurrent=%v closes=%d", mode, gap, concurrent, closes)
 	f.conn.Close()
 	vs.Quiesce()
 }
